@@ -32,6 +32,8 @@ import YtkProofs.PipelineFrame
 import YtkProofs.EnvFrame
 import YtkProofs.PipelineDataWF
 import YtkProofs.MergeRel
+import YtkProofs.HeapPatch
+import YtkProofs.HeapSet
 import YtkProofs.Decisions
 import YtkModel.Generated.Constants
 
@@ -932,5 +934,267 @@ theorem nonvacuous_ref :
 
 theorem nonvacuous_lenient : possiblyTemplate "x {{ .a }}" = true ∧ possiblyTemplate "{{ open" = false ∧
     possiblyTemplate "}} {{" = false ∧ indexOf2 '{' '{' "a { b } c".toList = none := by decide
+
+
+/-! ## Pointer level: pipeline.PatchOp on the heap model (YtkModel/HeapPatch.lean)
+
+  `PatchOp.Do` builds the `patch.OpObj` value from the op's own `Value` node (immediate value) or
+  from `Data().Lookup(valueFrom)` — and, since the D30 resp. D28 fixes, CLONES it first.  patch add /
+  replace attach the value node itself (`C09.heap_add_stores_value_node`), so without the clone the
+  op's own node, resp. a node of the data tree, ends up (again) in the data tree.  The positive
+  theorems are about `patchOpDoH` (what the driver runs); the negative ones about the pre-fix
+  shape `patchOpDoNoClone`, which the driver never runs. -/
+
+section heap
+open Ytk.Heap
+open Ytk.Ptr (Path parent lastSegment)
+
+/-- THE PLACED VALUE IS INDEPENDENT of its source.  After a successful add / replace through
+    PatchOp with a value source `n` (`srcNode`: the op's own value node, or the node valueFrom
+    resolves to): the node attached at `path` is the root `c` of a Clone made by this execution;
+    EVERY cell reachable from it was allocated by this execution; nothing is written except the one
+    (old) parent cell `par` of `path`; and unless the destination lies inside the source itself
+    (`Reach h n par` — only possible for valueFrom), everything the source reaches afterwards is an
+    OLD cell, reached already before: the op's own value node (resp. the source location) and the
+    placed value have NO cell in common, and the source is cell-for-cell what it was. -/
+theorem heap_patchOp_value_independent (op : String) (frm : Option Path) (path : Path) (src : ValueSrc)
+    (h h' : Heap) (root n : Addr) (hop : op = "add" ∨ op = "replace") (hcl : h.Closed)
+    (hroot : root < h.size) (hsrc : srcNode h root src = some n) (hn : n < h.size)
+    (he : patchOpDoH op frm (some path) src h root = (h', .ok ())) :
+    ∃ (h1 : Heap) (c par : Addr), cloneF h.size h n = some (h1, c) ∧ h'.size = h1.size ∧
+      evalH h root (parent path) = some par ∧ stepH h' par (lastSegment path) = some c ∧
+      (∀ b, b < h.size → b ≠ par → h'.get? b = h.get? b) ∧
+      (∀ b, Reach h' c b → h.size ≤ b ∧ b < h1.size) ∧
+      (¬ Reach h n par →
+        (∀ b, Reach h' n b → Reach h n b ∧ b < h.size) ∧
+        (∀ b, Reach h' c b → ¬ Reach h' n b) ∧
+        ∀ (g : Nat) (x : Node), absH g h n = some x → absH g h' n = some x) := by
+  obtain ⟨h1, c, par, cell', hc, hp, hpar, hh, hstep⟩ := patchOp_attach_shape hop hcl hroot hsrc he
+  have hl := (cloneF_spec h.size h n h1 c hc).1
+  have hfresh := copy_fresh hc hpar hh
+  refine ⟨h1, c, par, hc, by rw [hh]; exact Heap.size_write _ _ _, hp, hstep, ?_, hfresh, ?_⟩
+  · intro b hb hne
+    rw [hh, Heap.get?_write_ne h1 cell' hne, Heap.get?_eq_of_le hl hb]
+  · intro hnr
+    have hold : ∀ b, Reach h' n b → Reach h n b ∧ b < h.size := by
+      intro b hb
+      rw [hh] at hb
+      exact reach_old_of_write hl hcl hn hnr hb
+    refine ⟨hold, fun b hb hnb => ?_, fun g x hx => ?_⟩
+    · exact absurd (hold b hnb).2 (Nat.not_lt.mpr (hfresh b hb).1)
+    · rw [← hx]
+      refine absH_agree g n ?_
+      intro b hb
+      have hlt := reach_lt_of_absH g n x hx b hb
+      have hbp : b ≠ par := fun e => hnr (e ▸ hb)
+      rw [hh, Heap.get?_write_ne h1 cell' hbp, Heap.get?_eq_of_le hl hlt]
+
+/-- for an IMMEDIATE value whose node shares no cell with the data document (the op object was
+    decoded on its own) the side condition holds: the parent of `path` is a cell of the document -/
+theorem heap_patchOp_imm_disjoint (path : Path) (h : Heap) (root v par : Addr)
+    (hdis : ∀ b, Reach h root b → ¬ Reach h v b) (hp : evalH h root (parent path) = some par) :
+    ¬ Reach h v par :=
+  fun hr => hdis par (evalH_reach _ _ _ hp) hr
+
+/-- RE-EXECUTION YIELDS INDEPENDENT SUBTREES.  Run the same op (same value source) twice, at `path1`
+    and then at `path2` (forEach-style clones share the op's `Value`): the second execution attaches a
+    clone root `c2` all of whose cells were allocated by the SECOND execution, while everything the
+    first placed value `c1` reached after the first execution existed before the second — the two
+    placed subtrees have no cell in common at the time the second is attached; and if the second
+    destination is not inside the first placed subtree, the first placed subtree is cell-for-cell
+    untouched by the second execution, so the two stay disjoint afterwards.  By induction the same
+    holds for every pair of n executions. -/
+theorem heap_patchOp_rerun_independent (op : String) (frm : Option Path) (path1 path2 : Path)
+    (src : ValueSrc) (h h' h'' : Heap) (root n1 n2 : Addr) (hop : op = "add" ∨ op = "replace")
+    (hcl : h.Closed) (hcl' : h'.Closed) (hroot : root < h.size)
+    (hsrc1 : srcNode h root src = some n1) (hsrc2 : srcNode h' root src = some n2)
+    (he1 : patchOpDoH op frm (some path1) src h root = (h', .ok ()))
+    (he2 : patchOpDoH op frm (some path2) src h' root = (h'', .ok ())) :
+    ∃ (c1 c2 par1 par2 : Addr),
+      stepH h' par1 (lastSegment path1) = some c1 ∧ stepH h'' par2 (lastSegment path2) = some c2 ∧
+      evalH h' root (parent path2) = some par2 ∧
+      (∀ b, Reach h' c1 b → h.size ≤ b ∧ b < h'.size) ∧
+      (∀ b, Reach h'' c2 b → h'.size ≤ b) ∧
+      (∀ b, Reach h' c1 b → ¬ Reach h'' c2 b) ∧
+      (¬ Reach h' c1 par2 → ∀ b, Reach h'' c1 b → Reach h' c1 b ∧ ¬ Reach h'' c2 b) := by
+  obtain ⟨h1, c1, par1, cell1, hc1, hp1, hpar1, hh1, hstep1⟩ := patchOp_attach_shape hop hcl hroot hsrc1 he1
+  have hsz : h.size ≤ h'.size := by
+    rw [hh1, Heap.size_write]; exact Heap.size_le_of_le (cloneF_spec h.size h n1 h1 c1 hc1).1
+  have hroot' : root < h'.size := Nat.lt_of_lt_of_le hroot hsz
+  obtain ⟨h2, c2, par2, cell2, hc2, hp2, hpar2, hh2, hstep2⟩ := patchOp_attach_shape hop hcl' hroot' hsrc2 he2
+  have hl2 := (cloneF_spec h'.size h' n2 h2 c2 hc2).1
+  have hf1 := copy_fresh hc1 hpar1 hh1
+  have hf2 := copy_fresh hc2 hpar2 hh2
+  have hsz1 : h'.size = h1.size := by rw [hh1]; exact Heap.size_write _ _ _
+  have hc1lt : c1 < h'.size := by
+    have := (hf1 c1 (.refl _)).2; rw [hsz1]; exact this
+  refine ⟨c1, c2, par1, par2, hstep1, hstep2, hp2, ?_, fun b hb => (hf2 b hb).1, ?_, ?_⟩
+  · intro b hb; exact ⟨(hf1 b hb).1, by rw [hsz1]; exact (hf1 b hb).2⟩
+  · intro b hb hb2
+    have h1' := (hf1 b hb).2
+    rw [← hsz1] at h1'
+    exact absurd h1' (Nat.not_lt.mpr (hf2 b hb2).1)
+  · intro hnr b hb
+    rw [hh2] at hb
+    have := reach_old_of_write hl2 hcl' hc1lt hnr hb
+    exact ⟨this.1, fun hb2 => absurd this.2 (Nat.not_lt.mpr (hf2 b hb2).1)⟩
+
+/-- … FOR ANY NUMBER OF EXECUTIONS.  No execution of a PatchOp (whatever its outcome) shrinks the heap
+    (`heap_patchOp_size_mono`), and a successful add / replace places a value all of whose cells lie
+    in the address interval `[size before the execution, size after it)`
+    (`heap_patchOp_value_independent`).  So for executions i < j of any history — with arbitrary
+    other pipeline PatchOps in between — every cell of what execution i placed (at its attach time)
+    is BELOW every cell of what execution j placed: the n placed subtrees are pairwise disjoint. -/
+theorem heap_patchOp_size_mono (op : String) (frm path : Option Path) (src : ValueSrc) (h : Heap) (root : Addr) :
+    h.size ≤ (patchOpDoH op frm path src h root).1.size :=
+  patchOpDoH_size_le op frm path src h root
+
+/-- the interval statement used above, in one piece: two executions anywhere in a history whose
+    heaps are ordered (`hmid`: the heap the later one starts from is at least as large as the heap
+    the earlier one ended with — by `heap_patchOp_size_mono` for every step in between) -/
+theorem heap_patchOp_runs_disjoint (op : String) (frm : Option Path) (p1 p2 : Path) (src : ValueSrc)
+    (ha ha' hb hb' : Heap) (root n1 n2 : Addr) (hop : op = "add" ∨ op = "replace")
+    (hcla : ha.Closed) (hclb : hb.Closed) (hroota : root < ha.size) (hrootb : root < hb.size)
+    (hs1 : srcNode ha root src = some n1) (hs2 : srcNode hb root src = some n2)
+    (he1 : patchOpDoH op frm (some p1) src ha root = (ha', .ok ()))
+    (he2 : patchOpDoH op frm (some p2) src hb root = (hb', .ok ()))
+    (hmid : ha'.size ≤ hb.size) :
+    ∃ (c1 c2 par1 par2 : Addr),
+      stepH ha' par1 (lastSegment p1) = some c1 ∧ stepH hb' par2 (lastSegment p2) = some c2 ∧
+      ∀ b b', Reach ha' c1 b → Reach hb' c2 b' → b < b' := by
+  obtain ⟨h1, c1, par1, cell1, hc1, _, hpar1, hh1, hstep1⟩ := patchOp_attach_shape hop hcla hroota hs1 he1
+  obtain ⟨h2, c2, par2, cell2, hc2, _, hpar2, hh2, hstep2⟩ := patchOp_attach_shape hop hclb hrootb hs2 he2
+  have hf1 := copy_fresh hc1 hpar1 hh1
+  have hf2 := copy_fresh hc2 hpar2 hh2
+  have hsz1 : ha'.size = h1.size := by rw [hh1]; exact Heap.size_write _ _ _
+  refine ⟨c1, c2, par1, par2, hstep1, hstep2, ?_⟩
+  intro b b' hb1 hb2
+  have k1 : b < h1.size := (hf1 b hb1).2
+  have k2 : hb.size ≤ b' := (hf2 b' hb2).1
+  have k3 : h1.size ≤ hb.size := hsz1 ▸ hmid
+  exact Nat.lt_of_lt_of_le (Nat.lt_of_lt_of_le k1 k3) k2
+
+/-! ### The pre-fix shapes alias (negative results, proved on a concrete heap)
+
+  `qHeap`: 0 nilLeaf · 1 leaf "s" · 2 {k: #1} — the op's own value node · 3 {} · 4 {t: #3} — the
+  data document (root 4). -/
+def qHeap : Heap := ⟨[.leaf Scalar.null, .leaf ⟨"string", "s"⟩, .cont [("k", 1)], .cont [],
+  .cont [("t", 3)]]⟩
+
+/-- the fixed code: two executions of the same op (value node #2) at /t/e1 and /t/e2 attach two
+    DIFFERENT new nodes, and the op's node is not in the document -/
+theorem nonvacuous_heap_patchOp_rerun :
+    let r1 := patchOpDoH "add" none (some ["t", "e1"]) (.imm 2) qHeap 4
+    let r2 := patchOpDoH "add" none (some ["t", "e2"]) (.imm 2) r1.1 4
+    r1.2 = .ok () ∧ r2.2 = .ok () ∧
+    evalH r2.1 4 ["t", "e1"] = some 6 ∧ evalH r2.1 4 ["t", "e2"] = some 8 ∧ r2.1.size = 9 := by
+  decide +kernel
+
+/-- NEGATIVE (D30, pre-fix shape): without the clone the op's OWN node #2 is attached at both
+    locations — the per-item clones of a forEach body alias each other and the op object, so an
+    edit below /t/e1 shows below /t/e2 and in the op's value. -/
+theorem heap_patchOp_nofix_aliases :
+    let r1 := patchOpDoNoClone "add" none (some ["t", "e1"]) (.imm 2) qHeap 4
+    let r2 := patchOpDoNoClone "add" none (some ["t", "e2"]) (.imm 2) r1.1 4
+    r1.2 = .ok () ∧ r2.2 = .ok () ∧
+    evalH r2.1 4 ["t", "e1"] = some 2 ∧ evalH r2.1 4 ["t", "e2"] = some 2 ∧ r2.1.size = qHeap.size := by
+  decide +kernel
+
+/-- NEGATIVE (D28, pre-fix shape): valueFrom without the clone attaches the looked-up node itself;
+    adding the node at /t below itself (/t/self) makes the document CYCLIC — its abstraction is
+    undefined (every tree walk diverges) — whereas the fixed code attaches a clone and the document
+    stays a finite tree. -/
+theorem heap_patchOp_nofix_valueFrom_cyclic :
+    (patchOpDoNoClone "add" none (some ["t", "self"]) (.from ["t"]) qHeap 4).2 = .ok () ∧
+    evalH (patchOpDoNoClone "add" none (some ["t", "self"]) (.from ["t"]) qHeap 4).1 4 ["t", "self"] = some 3 ∧
+    evalH (patchOpDoNoClone "add" none (some ["t", "self"]) (.from ["t"]) qHeap 4).1 4 ["t"] = some 3 ∧
+    abs (patchOpDoNoClone "add" none (some ["t", "self"]) (.from ["t"]) qHeap 4).1 4 = none ∧
+    (patchOpDoH "add" none (some ["t", "self"]) (.from ["t"]) qHeap 4).2 = .ok () ∧
+    abs (patchOpDoH "add" none (some ["t", "self"]) (.from ["t"]) qHeap 4).1 4 =
+      some (.cont [("t", .cont [("self", .cont [])])]) := by
+  decide +kernel
+
+/-! ### SetOp: the payload is decoded anew on every execution -/
+
+/-- THE SET PAYLOAD IS FRESH.  `SetOp.Do` converts its `Data` map with `FromMap` on EVERY execution
+    (`decodeNode`): for any strategy and path, a successful execution has built a payload container
+    `c` — a cell allocated by this execution — such that EVERY cell reachable from it was allocated
+    by this execution, except nulls (the shared nil leaf, immutable); no existing cell was written
+    while building it.  With the replace strategy and a non-empty path that very container is what
+    `AddValueAt` attaches.  Hence running the same op object — or its forEach clones, which share the
+    `Data` MAP, never a node — n times places n payload graphs without a common container or list
+    object: unlike PatchOp before the D30 fix, SetOp never aliased its executions. -/
+theorem heap_setOp_payload_fresh (merge : Bool) (comps : List String) (data : List (String × Node))
+    (h h' : Heap) (root c : Addr) (hnil : h.NilOk)
+    (he : setOpH merge comps data h root = some (h', c)) :
+    ∃ h1, Ytk.Heap.decodeNode h (.cont data) = (h1, c) ∧ h ≤ h1 ∧ h.size ≤ c ∧
+      (∀ b, Reach h1 c b → h.size ≤ b ∨ b = nilAddr) ∧
+      (merge = false → comps ≠ [] → setAddValueAtH h1 root comps c = some h') := by
+  obtain ⟨hl, hfresh⟩ := Ytk.Heap.decodeNode_fresh (.cont data) h hnil
+  unfold setOpH at he
+  generalize hdec : Ytk.Heap.decodeNode h (.cont data) = r at he hl hfresh
+  obtain ⟨h1, c1⟩ := r
+  simp only at he hl hfresh
+  have hc1 : h.size ≤ c1 := by
+    -- the root of a decoded MAP is a new container cell (never the nil leaf)
+    have : c1 = (Ytk.Heap.decodeKvs h data).1.size := by
+      simp only [Ytk.Heap.decodeNode] at hdec
+      generalize Ytk.Heap.decodeKvs h data = q at hdec
+      obtain ⟨g, m⟩ := q
+      simp only [Heap.alloc, Prod.mk.injEq] at hdec
+      exact hdec.2.symm
+    rw [this]
+    exact Heap.size_le_of_le (Ytk.Heap.decodeKvs_le data h)
+  cases hg : h1.get? c1 with
+  | none => simp [hg] at he
+  | some cell =>
+    cases cell with
+    | leaf s => simp [hg] at he
+    | list xs => simp [hg] at he
+    | cont ckvs =>
+      simp only [hg] at he
+      have hcc : c = c1 := by
+        split at he
+        · simp only [Option.map_eq_some_iff] at he
+          obtain ⟨_, _, he⟩ := he
+          exact (congrArg Prod.snd he).symm
+        · split at he
+          · split at he
+            · split at he
+              · split at he
+                · simp only [Option.map_eq_some_iff] at he
+                  obtain ⟨_, _, he⟩ := he
+                  exact (congrArg Prod.snd he).symm
+                · cases he
+              · simp only [Option.map_eq_some_iff] at he
+                obtain ⟨_, _, he⟩ := he
+                exact (congrArg Prod.snd he).symm
+            · simp only [Option.map_eq_some_iff] at he
+              obtain ⟨_, _, he⟩ := he
+              exact (congrArg Prod.snd he).symm
+          · simp only [Option.map_eq_some_iff] at he
+            obtain ⟨_, _, he⟩ := he
+            exact (congrArg Prod.snd he).symm
+      subst hcc
+      refine ⟨h1, rfl, hl, hc1, hfresh, ?_⟩
+      intro hm hne
+      subst hm
+      simp only [if_neg hne, Bool.false_eq_true, if_false, Option.map_eq_some_iff] at he
+      obtain ⟨h2, he2, he3⟩ := he
+      rw [he2]
+      exact congrArg some (congrArg Prod.fst he3)
+
+/-- non-vacuity: the same payload set twice (replace, two paths) on `qHeap`: both succeed, the two
+    placed containers are different new cells -/
+theorem nonvacuous_heap_setOp :
+    let d : List (String × Node) := [("k", .leaf ⟨"int", "1"⟩), ("n", .leaf Scalar.null)]
+    let r1 := setOpH false ["t", "e1"] d qHeap 4
+    let r2 := r1.bind fun p => setOpH false ["t", "e2"] d p.1 4
+    r1.map (·.2) = some 6 ∧ r2.map (·.2) = some 8 ∧
+    (r2.bind fun p => evalH p.1 4 ["t", "e1"]) = some 6 ∧
+    (r2.bind fun p => evalH p.1 4 ["t", "e2"]) = some 8 := by
+  decide +kernel
+
+end heap
 
 end Ytk.C13
